@@ -209,28 +209,31 @@ theorem linesOf_append_key (b l0 : List Nat) (rest : List (List Nat))
   rw [aux_append_key bytesBreak bytesBreak_10 b l0 rest h hl0 p false]
   simp
 
-theorem take_block (c : List Nat) (bs pos : Nat) :
-    c.take (pos - min bs pos) ++ block c bs pos = c.take pos := by
-  unfold block
-  have h : pos = (pos - min bs pos) + min bs pos := by omega
+theorem take_blk (c : List Nat) (n pos : Nat) (hn : n ≤ pos) :
+    c.take (pos - n) ++ blk c n pos = c.take pos := by
+  unfold blk
+  have h : pos = (pos - n) + n := by omega
   conv => rhs; rw [h, List.take_add]
 
-/-- the loop invariant: whatever is still to come is the reversed lines of (unread prefix ++ buff) -/
-theorem revLoop_spec (c : List Nat) (bs : Nat) (hbs : 1 ≤ bs) (f pos : Nat) (buff : List Nat)
-    (hf : pos ≤ f) : revLoop c bs f pos buff = (linesOf (c.take pos ++ buff)).reverse := by
+/-- the loop invariant, for EVERY read schedule with reads of at least one byte: whatever is still
+    to come is the reversed lines of (unread prefix ++ buff) -/
+theorem revLoopS_spec (c : List Nat) (rs : Nat → Nat) (hrs : ∀ p, 1 ≤ rs p) (f pos : Nat) (buff : List Nat)
+    (hf : pos ≤ f) : revLoopS c rs f pos buff = (linesOf (c.take pos ++ buff)).reverse := by
   induction f generalizing pos buff with
   | zero =>
     have : pos = 0 := by omega
     subst this
-    simp [revLoop, flush_eq]
+    simp [revLoopS, flush_eq]
   | succ f ih =>
-    rw [revLoop]
+    rw [revLoopS]
     split
     · next h0 => subst h0; simp [flush_eq]
     · next h0 =>
-      have hlt : pos - min bs pos ≤ f := by omega
-      have hsplit : c.take pos ++ buff = c.take (pos - min bs pos) ++ (block c bs pos ++ buff) := by
-        rw [← List.append_assoc, take_block]
+      have h1 := hrs pos
+      have hlt : pos - min (rs pos) pos ≤ f := by omega
+      have hsplit : c.take pos ++ buff =
+          c.take (pos - min (rs pos) pos) ++ (blk c (min (rs pos) pos) pos ++ buff) := by
+        rw [← List.append_assoc, take_blk _ _ _ (Nat.min_le_right _ _)]
       split
       · next l0 l1 ls hsp =>
         split
@@ -240,6 +243,16 @@ theorem revLoop_spec (c : List Nat) (bs : Nat) (hbs : 1 ≤ bs) (f pos : Nat) (b
           simp only [List.reverse_append]
           split <;> simp
       · rw [ih _ _ hlt, hsplit]
+
+theorem revLoop_spec (c : List Nat) (bs : Nat) (hbs : 1 ≤ bs) (f pos : Nat) (buff : List Nat)
+    (hf : pos ≤ f) : revLoop c bs f pos buff = (linesOf (c.take pos ++ buff)).reverse :=
+  revLoopS_spec c (fun _ => bs) (fun _ => hbs) f pos buff hf
+
+theorem alignedRead_pos (bs : Nat) (hbs : 1 ≤ bs) (p : Nat) : 1 ≤ alignedRead bs p := by
+  unfold alignedRead
+  split
+  · exact hbs
+  · omega
 
 /-! the loop's `linesOf` is the statement's LF- or CRLF-separated lines when no CR stands alone -/
 
@@ -581,10 +594,10 @@ theorem consume_ignore (parse : List Nat → Except ε α) (ls : List (List Nat)
   | nil => simp [consume]
   | cons l ls ih =>
     rw [consume]
-    by_cases hb : lstrip l = []
+    by_cases hb : lineNorm l = []
     · simp [hb, ih, objOf]
     · simp only [hb, if_false]
-      cases hp : parse (lstrip l) with
+      cases hp : parse (lineNorm l) with
       | ok v => simp [ih, objOf, hb, hp]
       | error e => simp [ih, objOf, hb, hp]
 
@@ -596,46 +609,80 @@ inductive RelL : List (List Nat) → List (List Nat) → Prop
   | nil : RelL [] []
   | cons {x y xs ys} (h : Rel x y) (t : RelL xs ys) : RelL (x :: xs) (y :: ys)
 
-theorem lstrip_append_ws (y e : List Nat) (he : ∀ c ∈ e, pyWs c = true) :
-    (lstrip y = [] ∧ lstrip (y ++ e) = []) ∨ (lstrip y ≠ [] ∧ lstrip (y ++ e) = lstrip y ++ e) := by
+theorem lineEnd_10 : lineEnd 10 = true := by decide
+theorem lineEnd_13 : lineEnd 13 = true := by decide
+
+theorem dropWhile_append_all (p : Nat → Bool) (a b : List Nat) (ha : ∀ c ∈ a, p c = true) :
+    (a ++ b).dropWhile p = b.dropWhile p := by
+  induction a with
+  | nil => rfl
+  | cons c cs ih =>
+    have hc : p c = true := ha c (by simp)
+    simp only [List.cons_append, List.dropWhile_cons, hc, if_true]
+    exact ih (fun d hd => ha d (by simp [hd]))
+
+theorem rstripBy_append_all (rs : Nat → Bool) (z e : List Nat) (he : ∀ c ∈ e, rs c = true) :
+    rstripBy rs (z ++ e) = rstripBy rs z := by
+  unfold rstripBy
+  rw [List.reverse_append, dropWhile_append_all rs _ _ (by simpa using he)]
+
+theorem rstripBy_all (rs : Nat → Bool) (e : List Nat) (he : ∀ c ∈ e, rs c = true) :
+    rstripBy rs e = [] := by
+  have := rstripBy_append_all rs [] e he
+  simpa [rstripBy] using this
+
+/-- a run of end-of-line characters after the line does not change `line.lstrip().rstrip(..)`,
+    WHATEVER set `.lstrip()` strips -/
+theorem normBy_append (ws rs : Nat → Bool) (y e : List Nat) (he : ∀ c ∈ e, rs c = true) :
+    rstripBy rs (lstripBy ws (y ++ e)) = rstripBy rs (lstripBy ws y) := by
   induction y with
   | nil =>
-    left
-    refine ⟨rfl, ?_⟩
-    simp only [List.nil_append, lstrip]
-    induction e with
-    | nil => rfl
-    | cons a as iha =>
-      have ha : pyWs a = true := he a (by simp)
-      simp only [List.dropWhile_cons, ha, if_true]
-      exact iha (fun c hc => he c (by simp [hc]))
+    have h1 : rstripBy rs (lstripBy ws ([] ++ e)) = [] := by
+      apply rstripBy_all
+      intro c hc
+      exact he c ((List.dropWhile_suffix ws).subset hc)
+    rw [h1]
+    simp [lstripBy, rstripBy]
   | cons c cs ih =>
-    by_cases hc : pyWs c = true
-    · simp only [lstrip, List.cons_append, List.dropWhile_cons, hc, if_true] at ih ⊢
+    by_cases hc : ws c = true
+    · simp only [lstripBy, List.cons_append, List.dropWhile_cons, hc, if_true] at ih ⊢
       exact ih
-    · right
-      simp [lstrip, List.dropWhile_cons, hc]
+    · simp only [lstripBy, List.cons_append, List.dropWhile_cons, hc]
+      exact rstripBy_append_all rs (c :: cs) e he
 
-theorem objOf_rel (parse : List Nat → Except ε α) (hp : IgnoresBreak parse) (x y : List Nat)
-    (h : Rel x y) : objOf parse x = objOf parse y := by
-  have key : ∀ e : List Nat, (∀ c ∈ e, pyWs c = true) → (∀ z, parse (z ++ e) = parse z) →
-      objOf parse (y ++ e) = objOf parse y := by
-    intro e he hpe
-    rcases lstrip_append_ws y e he with ⟨h1, h2⟩ | ⟨h1, h2⟩
-    · simp [objOf, h1, h2]
-    · have : lstrip y ++ e ≠ [] := by simp [h1]
-      simp [objOf, h1, h2, this, hpe]
+theorem lineNorm_rel (x y : List Nat) (h : Rel x y) : lineNorm x = lineNorm y := by
+  unfold lineNorm
   rcases h with rfl | rfl | rfl
   · rfl
-  · exact key [10] (by decide) (fun z => (hp z).1)
-  · exact key [13, 10] (by decide) (fun z => (hp z).2)
+  · exact normBy_append _ _ _ _ (by intro c hc; simp at hc; subst hc; exact lineEnd_10)
+  · apply normBy_append
+    intro c hc
+    simp at hc
+    rcases hc with rfl | rfl
+    · exact lineEnd_13
+    · exact lineEnd_10
 
-theorem filterMap_rel (parse : List Nat → Except ε α) (hp : IgnoresBreak parse)
+theorem lineNorm_nil : lineNorm [] = [] := by
+  simp [lineNorm, lstripBy, rstripBy]
+
+/-- a line of characters that `.lstrip()` strips is blank -/
+theorem lineNorm_blank (l : List Nat) (h : ∀ c ∈ l, pyWs c = true) : lineNorm l = [] := by
+  have : lstripBy pyWs l = [] := by
+    unfold lstripBy
+    have := dropWhile_append_all pyWs l [] h
+    simpa using this
+  simp [lineNorm, this, rstripBy]
+
+theorem objOf_rel (parse : List Nat → Except ε α) (x y : List Nat)
+    (h : Rel x y) : objOf parse x = objOf parse y := by
+  simp [objOf, lineNorm_rel x y h]
+
+theorem filterMap_rel (parse : List Nat → Except ε α)
     (xs ys : List (List Nat)) (h : RelL xs ys) :
     xs.filterMap (objOf parse) = ys.filterMap (objOf parse) := by
   induction h with
   | nil => rfl
-  | cons hxy _ ih => simp [List.filterMap_cons, objOf_rel parse hp _ _ hxy, ih]
+  | cons hxy _ ih => simp [List.filterMap_cons, objOf_rel parse _ _ hxy, ih]
 
 theorem rel_consHead (c : Nat) (xs ys : List (List Nat)) (h : RelL xs ys) :
     RelL (consHead c xs) (consHead c ys) := by
@@ -715,7 +762,7 @@ theorem fileLinesB'_rel (c : List Nat) (h : noLoneCR c = true) : RelL (fileLines
     exact rel_consHead _ _ _ (ih (noLoneCR_tail _ _ _ h))
 
 theorem objOf_nil (parse : List Nat → Except ε α) : objOf parse [] = none := by
-  simp [objOf, lstrip]
+  simp [objOf, lineNorm_nil]
 
 theorem filterMap_fileLinesB' (parse : List Nat → Except ε α) (c : List Nat) :
     (fileLinesB' c).filterMap (objOf parse) = (fileLinesB c).filterMap (objOf parse) := by
@@ -729,7 +776,7 @@ theorem filterMap_linesOf (parse : List Nat → Except ε α) (c : List Nat) :
 
 /-- a line that does not stop a strict (`ignore_errors=False`) iteration: blank or decodable -/
 def OkLine (parse : List Nat → Except ε α) (l : List Nat) : Prop :=
-  lstrip l = [] ∨ ∃ v, parse (lstrip l) = .ok v
+  lineNorm l = [] ∨ ∃ v, parse (lineNorm l) = .ok v
 
 def AllOk (parse : List Nat → Except ε α) (ls : List (List Nat)) : Prop := ∀ l ∈ ls, OkLine parse l
 
@@ -742,7 +789,7 @@ theorem consume_strict_of_allOk (parse : List Nat → Except ε α) (ls : List (
     rw [consume, consume]
     rcases h l (by simp) with hb | ⟨v, hv⟩
     · simp [hb, ih]
-    · by_cases hb : lstrip l = []
+    · by_cases hb : lineNorm l = []
       · simp [hb, ih]
       · simp [hb, hv, ih]
 
@@ -752,14 +799,14 @@ theorem allOk_of_consume_strict (parse : List Nat → Except ε α) (ls : List (
   | nil => intro l hl; cases hl
   | cons l ls ih =>
     rw [consume] at h
-    by_cases hb : lstrip l = []
+    by_cases hb : lineNorm l = []
     · simp only [hb, if_true] at h
       intro x hx
       rcases List.mem_cons.mp hx with rfl | hx
       · exact Or.inl hb
       · exact ih h x hx
     · simp only [hb, if_false] at h
-      cases hp : parse (lstrip l) with
+      cases hp : parse (lineNorm l) with
       | ok v =>
         rw [hp] at h
         intro x hx
@@ -768,28 +815,19 @@ theorem allOk_of_consume_strict (parse : List Nat → Except ε α) (ls : List (
         · exact ih h x hx
       | error e => rw [hp] at h; simp at h
 
-theorem okLine_rel (parse : List Nat → Except ε α) (hp : IgnoresBreak parse) (x y : List Nat)
+theorem okLine_rel (parse : List Nat → Except ε α) (x y : List Nat)
     (h : Rel x y) : OkLine parse x ↔ OkLine parse y := by
-  have key : ∀ e : List Nat, (∀ c ∈ e, pyWs c = true) → (∀ z, parse (z ++ e) = parse z) →
-      (OkLine parse (y ++ e) ↔ OkLine parse y) := by
-    intro e he hpe
-    rcases lstrip_append_ws y e he with ⟨h1, h2⟩ | ⟨h1, h2⟩
-    · simp [OkLine, h1, h2]
-    · simp [OkLine, h1, h2, hpe]
-  rcases h with rfl | rfl | rfl
-  · rfl
-  · exact key [10] (by decide) (fun z => (hp z).1)
-  · exact key [13, 10] (by decide) (fun z => (hp z).2)
+  simp [OkLine, lineNorm_rel x y h]
 
-theorem allOk_rel (parse : List Nat → Except ε α) (hp : IgnoresBreak parse)
+theorem allOk_rel (parse : List Nat → Except ε α)
     (xs ys : List (List Nat)) (h : RelL xs ys) : AllOk parse xs ↔ AllOk parse ys := by
   induction h with
   | nil => rfl
   | cons hxy _ ih =>
     simp only [AllOk, List.mem_cons, forall_eq_or_imp] at ih ⊢
-    rw [okLine_rel parse hp _ _ hxy, ih]
+    rw [okLine_rel parse _ _ hxy, ih]
 
-theorem okLine_nil (parse : List Nat → Except ε α) : OkLine parse [] := Or.inl rfl
+theorem okLine_nil (parse : List Nat → Except ε α) : OkLine parse [] := Or.inl lineNorm_nil
 
 theorem allOk_append_nil (parse : List Nat → Except ε α) (xs : List (List Nat)) (b : Bool) :
     AllOk parse (xs ++ (if b then [[]] else [])) ↔ AllOk parse xs := by
